@@ -23,8 +23,6 @@ type TextCase struct {
 	Text string `json:"text"`
 }
 
-var errSkip = errors.New("skip")
-
 type skipErr struct{ why string }
 
 func (s skipErr) Error() string { return s.why }
